@@ -285,6 +285,7 @@ class ProgramSet(NamedItem):
             for pop in self.pops:
                 if (par, pop) in self.covouts and code_name in self.covouts[(par, pop)].progs:
                     del self.covouts[(par, pop)].progs[code_name]
+                    self.covouts[(par, pop)].update_outcomes()  # The cached deltas/combinations refer to the programs, so refresh them
 
     def add_pop(self, code_name: str, full_name: str, pop_type: str = None) -> None:
         """
